@@ -14,6 +14,8 @@ pub fn try_send_timeout<T>(
   t: T,
   timeout_opt: Option<Duration>,
 ) -> Result<(), TrySendError<T>> {
+  #[cfg(rustdds_verif)]
+  use crate::verif::hooks::thread; // simulated sleep
   match sender.try_send(t) {
     Ok(()) => Ok(()), // This is expected to be the common case
 
